@@ -1,4 +1,5 @@
 use std::mem::{swap, take};
+use std::sync::atomic::{AtomicBool, Ordering};
 use std::sync::Arc;
 
 use cas_client::Client;
@@ -71,6 +72,11 @@ pub struct FileUploadSession {
 
     // Internal worker
     xorb_upload_tasks: Mutex<JoinSet<Result<()>>>,
+
+    /// Set as soon as a background xorb upload is seen to have failed.  The error itself is returned
+    /// by whichever call observes it; this flag makes sure the session cannot be finalized successfully
+    /// (and its shards uploaded) afterwards.
+    xorb_upload_failed: AtomicBool,
 }
 
 // Constructors
@@ -128,6 +134,7 @@ impl FileUploadSession {
             current_session_data: Mutex::new(DataAggregator::default()),
             deduplication_metrics: Mutex::new(DeduplicationMetrics::default()),
             xorb_upload_tasks: Mutex::new(JoinSet::new()),
+            xorb_upload_failed: AtomicBool::new(false),
         }))
     }
 
@@ -156,6 +163,7 @@ impl FileUploadSession {
             current_session_data: Mutex::new(DataAggregator::default()),
             deduplication_metrics: Mutex::new(DeduplicationMetrics::default()),
             xorb_upload_tasks: Mutex::new(JoinSet::new()),
+            xorb_upload_failed: AtomicBool::new(false),
         }))
     }
 
@@ -168,6 +176,9 @@ impl FileUploadSession {
         {
             let mut upload_tasks = self.xorb_upload_tasks.lock().await;
             while let Some(result) = upload_tasks.try_join_next() {
+                if !matches!(result, Ok(Ok(()))) {
+                    self.xorb_upload_failed.store(true, Ordering::SeqCst);
+                }
                 result??;
             }
         }
@@ -300,6 +311,14 @@ impl FileUploadSession {
 
         while let Some(result) = upload_tasks.join_next().await {
             result??;
+        }
+
+        // An upload failure that was already reported by an earlier call must not be forgotten:
+        // the shards reference the xorb that is missing from the store.
+        if self.xorb_upload_failed.load(Ordering::SeqCst) {
+            return Err(DataProcessingError::UploadTaskError(
+                "a xorb upload of this session failed earlier; the session cannot be finalized".to_owned(),
+            ));
         }
 
         // Only now take the metrics: the upload tasks joined above add the bytes they
